@@ -50,6 +50,7 @@ class Composed:
         self.packages = {}     # package name -> {filename: text}
         self.features = set()
         self.root = None
+        self.namespace_packages = set()    # packages written WITHOUT __init__.py (PEP 420)
 
     def materialise(self):
         """Write everything below a fresh directory that is put on sys.path; -> main path."""
@@ -65,7 +66,7 @@ class Composed:
             parts = pkg.split(".")
             for i in range(1, len(parts) + 1):
                 init = os.path.join(self.root, *parts[:i], "__init__.py")
-                if not os.path.exists(init):
+                if not os.path.exists(init) and pkg not in self.namespace_packages:
                     open(init, "w").close()
             for fn, text in files.items():
                 with open(os.path.join(d, fn), "w", encoding="utf-8") as f:
